@@ -280,6 +280,25 @@ def explore(backend, prefix, reqs, limit=20000, use_sleep=True, fine=False):
     yield res
 
 
+def one_preemption(backend, prefix, reqs, fine=False, max_points=400):
+  """The coarse schedules a depth-first enumeration reaches last (or not at all within its limit): one thread is held
+  before its k-th scheduling point while the other runs to completion, for every k and both roles (preemption bound
+  one).  Most atomicity violations need no more than that."""
+  for held in (0, 1):
+    other = 1 - held
+    k = 0
+    while k < max_points:
+      choices = [held] * k + [other] * 5000
+      res = run_schedule(backend, prefix, reqs, choices, None, fine)
+      trace = res['trace']
+      res['choices'] = [t[0] for t in trace]
+      yield res
+      # `held` had fewer than k scheduling points left: every later k repeats this schedule
+      if sum(1 for t in trace[:k] if t[0] == held) < k:
+        break
+      k += 1
+
+
 def serial(backend, prefix, reqs, order):
   rr = svcreal.make_runner(backend)
   for r in prefix:
